@@ -130,7 +130,7 @@ func handlerExec(h handlers.Handler, c wire.Cmd, spare int) (res wire.Result) {
 		for i, k := range c.Keys {
 			req.Keys = append(req.Keys, keyBytes(k, spare))
 			req.Opaques = append(req.Opaques, c.Opaque+uint32(i))
-			req.Quiet = append(req.Quiet, c.NoopEnd || i != len(c.Keys)-1)
+			req.Quiet = append(req.Quiet, (c.NoopEnd || i != len(c.Keys)-1) && !c.NonQuiet)
 		}
 		type one struct {
 			key    string
